@@ -14,7 +14,7 @@ RULE = ('dir: estimate_SIR_prob_size_from_dir_perc on EVERY labelled digraph wit
 ASSUMPTIONS = ['"a largest SCC": any of several equally large components is accepted']
 BUDGET = {'quick': 150, 'thorough': 1200}
 CHUNK = {'quick': 100, 'thorough': 300}
-REQUIRED = ['nm_mapping_form_defaultdict', 'nm_mapping_form_extra_keys', 'dir_checked', 'tie_scc_cases', 'est_checked', 'dest_checked', 'nm_checked', 'nmt_checked', 'arcs_rule_checked']
+REQUIRED = ['multigraph_inputs', 'nm_mapping_form_defaultdict', 'nm_mapping_form_extra_keys', 'dir_checked', 'tie_scc_cases', 'est_checked', 'dest_checked', 'nm_checked', 'nmt_checked', 'arcs_rule_checked']
 INF = float('inf')
 
 
@@ -36,6 +36,11 @@ def gen_cases(tier, seed):
         else:
             d = gen.random_graph(r, 1, 12)
         d['labels'] = r.choice(gen.LABEL_SCHEMES)
+        if kind in ('dest', 'nmt') and d['edges'] and r.random() < 0.3:
+            # a MultiGraph with parallel edges (raw configuration-model output): a contact is one neighbour, however many edges realise it
+            d['multi'] = True
+            d['edges'] = d['edges'] + [list(e) for e in r.sample(d['edges'], min(len(d['edges']), r.randint(1, 3)))] * r.choice([1, 2])
+            d.pop('decoy', None)
         d['kind'] = kind
         d['seed'] = cs
         d['p'] = r.choice([0.0, 0.2, 0.5, 0.8, 1.0])
@@ -140,6 +145,8 @@ def run_case(case):
             res['nontrivial'] = 'est:%s:%s' % (gen.iso_key(case), case['p'])
             res['sample'] = {'kind': 'est', 'graph': {'n': case['n'], 'edges': case['edges']}, 'p': case['p'], 'result': list(got)}
         return res
+    if case.get('multi'):
+        bump(res, 'multigraph_inputs')
     if kind == 'dest':
         orig, tap = capture('directed_percolate_network')
         sim.directed_percolate_network = tap
